@@ -225,3 +225,19 @@ Fixpoint grow_chain (hash : Z -> Z) (t : table) (L : Z) (Ls : list Z) : outcome 
                  | Stuck => Stuck | Fuel => Fuel | Exn => Exn
                  end
   end.
+
+(* HashSet::pvFind(key) across chained generations, newest first *)
+Fixpoint find_gens (gens : list (table * Z)) (key h : Z) : outcome (option (nat * Z * Z)) :=
+  match gens with
+  | [] => Ok None
+  | (t, L) :: r =>
+    match find t L key h with
+    | Ok (Some (b, s)) => Ok (Some (O, b, s))
+    | Ok None => match find_gens r key h with
+                 | Ok (Some (g, b, s)) => Ok (Some (S g, b, s))
+                 | Ok None => Ok None
+                 | Stuck => Stuck | Fuel => Fuel | Exn => Exn
+                 end
+    | Stuck => Stuck | Fuel => Fuel | Exn => Exn
+    end
+  end.
